@@ -127,11 +127,117 @@ theorem C02_isolation (max : Nat) (c : ConnState) (evs : List (Nat × SrvEvent))
     · have hj : j ≠ sid := fun e => h e.symm
       simp [h, C02_isolation_step max c sid j e hj]
 
+/-- waiting on a strict prefix, from any buffer -/
+theorem srv_prefix_waits (max : Nat) (sched : Bool) (req : Req) (bytes buf more : Bytes) (k : Nat)
+    (hmax : max ≤ lenFieldMax) (hwf : ReqWF req) (henc : encodeRequest max req = .ok bytes) (hk : k < bytes.length)
+    (hb : buf ++ more = bytes.take k) :
+    Srv.step max sched (.reading buf false) (.data more) = (.reading (buf ++ more) false, []) := by
+  have hw : writeMsg max req.version (encReqHeader req) req.body = (bytes, none) := by
+    unfold encodeRequest writeRequest at henc
+    cases hw : writeMsg max req.version (encReqHeader req) req.body with
+    | mk bs e => rw [hw] at henc; cases e <;> simp at henc; subst henc; rfl
+  obtain ⟨h1, _, _⟩ := (writeMsg_ok_iff _ _ _ _ _).mp hw
+  have hl4 := lenFieldMax_lt
+  have hp := parseReqHeader_enc req hwf.1 hwf.2 (by omega)
+  obtain ⟨e, he, hn⟩ := decodeMsg_prefix_needsMore parseReqHeader _ max req.version _ req.body bytes k hmax hw
+    (C07_preamble_roundtrip req.version) hp hk
+  have hd : decodeRequest max (buf ++ more) = .error e := by unfold decodeRequest; rw [hb, he]
+  simp only [Srv.step, hd, hn, if_true]
+
+/-- an encoded request is never empty (it starts with the 8-byte preamble) -/
+theorem encodeRequest_nonempty (max : Nat) (req : Req) (bytes : Bytes) (henc : encodeRequest max req = .ok bytes) :
+    0 < bytes.length := by
+  have hw : writeMsg max req.version (encReqHeader req) req.body = (bytes, none) := by
+    unfold encodeRequest writeRequest at henc
+    cases hw : writeMsg max req.version (encReqHeader req) req.body with
+    | mk bs e => rw [hw] at henc; cases e <;> simp at henc; subst henc; rfl
+  obtain ⟨_, _, h3⟩ := (writeMsg_ok_iff _ _ _ _ _).mp hw
+  have := preamble_length req.version
+  rw [h3]; simp only [List.length_append]; omega
+
+/-- **Chunking-independence, in full**: however the transport cuts the request bytes into pieces
+(any number of pieces, any sizes, empty ones included), the handler is invoked exactly once, with the
+request as delivered, when -- and only when -- the last byte is in. -/
+theorem C02_chunked_delivery (max : Nat) (sched : Bool) (req : Req) (bytes : Bytes)
+    (hmax : max ≤ lenFieldMax) (hwf : ReqWF req) (henc : encodeRequest max req = .ok bytes)
+    (chunks : List Bytes) (buf : Bytes) (hlt : buf.length < bytes.length) (hcat : buf ++ chunks.flatten = bytes) :
+    Srv.run max sched (.reading buf false) (chunks.map .data) = (.handling, [.invoke (reqDelivered req)]) := by
+  induction chunks generalizing buf with
+  | nil => simp at hcat; subst hcat; omega
+  | cons ch t ih =>
+    simp only [List.map_cons, Srv.run]
+    by_cases hl : (buf ++ ch).length < bytes.length
+    · have hb : buf ++ ch = bytes.take (buf ++ ch).length := by
+        rw [← hcat]; simp [List.flatten_cons, ← List.append_assoc]
+      rw [srv_prefix_waits max sched req bytes buf ch _ hmax hwf henc hl hb]
+      simp only [List.nil_append]
+      exact ih (buf ++ ch) hl (by simpa [List.flatten_cons, List.append_assoc] using hcat)
+    · have hlen : (buf ++ ch ++ t.flatten).length = bytes.length := by
+        rw [← hcat]; simp [List.flatten_cons, List.append_assoc]
+      have ht : t.flatten = [] := by
+        apply List.eq_nil_of_length_eq_zero
+        simp only [List.length_append] at hlen hl ⊢; omega
+      have hbc : buf ++ ch = bytes ++ [] := by
+        rw [← hcat]; simp [List.flatten_cons, ht]
+      rw [C02_complete_invokes max sched req bytes buf [] hmax hwf henc ch hbc]
+      simp only [srv_handling_data, List.append_nil]
+
+/-- the actions on stream `j` in ANY interleaving of events on all streams are exactly the actions of
+its own machine on its own events -/
+theorem C02_actions_project (max : Nat) (c : ConnState) (evs : List (Nat × SrvEvent)) (j : Nat) :
+    ((Conn.trace max c evs).filter (fun x => x.1 = j)).map (·.2) =
+      (Srv.run max true (c.streams j) ((evs.filter (fun x => x.1 = j)).map (·.2))).2 := by
+  induction evs generalizing c with
+  | nil => rfl
+  | cons x t ih =>
+    obtain ⟨sid, e⟩ := x
+    simp only [Conn.trace, List.filter_append, List.map_append]
+    rw [ih]
+    by_cases h : sid = j
+    · subst h
+      simp [Conn.step, Srv.run, List.filter_map, Function.comp_def]
+    · have hj : j ≠ sid := fun e => h e.symm
+      simp [h, C02_isolation_step max c sid j e hj, List.filter_map, Function.comp_def]
+
+/-- responses are never swapped or merged: two histories that agree on stream `j` produce the same
+actions (invocation, bytes written, finish, end) on stream `j` -/
+theorem C02_no_swap (max : Nat) (c : ConnState) (evs evs' : List (Nat × SrvEvent)) (j : Nat)
+    (h : evs.filter (fun x => x.1 = j) = evs'.filter (fun x => x.1 = j)) :
+    ((Conn.trace max c evs).filter (fun x => x.1 = j)).map (·.2) =
+    ((Conn.trace max c evs').filter (fun x => x.1 = j)).map (·.2) := by
+  rw [C02_actions_project, C02_actions_project, h]
+
+/-- **Concurrent RPCs are paired correctly.**  Take ANY interleaving of events on all the streams of a
+connection.  If the events of stream `j` are: the bytes of request `req` in any chunking, then the
+handler's answer `r`, then the caller reading it, the actions on stream `j` are exactly: invoke the
+handler once with `req` as delivered, write the encoding of `r`, finish, end cleanly -- whatever the
+other streams carry and in whatever order their handlers complete. -/
+theorem C02_concurrent_pairing (max : Nat) (c : ConnState) (evs : List (Nat × SrvEvent)) (j : Nat)
+    (req : Req) (bytes : Bytes) (chunks : List Bytes) (r : Resp) (rbytes : Bytes)
+    (hmax : max ≤ lenFieldMax) (hwf : ReqWF req) (henc : encodeRequest max req = .ok bytes)
+    (hresp : encodeResponse max r = .ok rbytes)
+    (hfresh : c.streams j = .reading [] false)
+    (hcat : chunks.flatten = bytes)
+    (hj : (evs.filter (fun x => x.1 = j)).map (·.2) = chunks.map .data ++ [.handlerDone r, .readAll]) :
+    ((Conn.trace max c evs).filter (fun x => x.1 = j)).map (·.2) =
+      [.invoke (reqDelivered req), .write rbytes, .finish, .ended true] := by
+  rw [C02_actions_project, hj, hfresh, srv_run_append,
+    C02_chunked_delivery max true req bytes hmax hwf henc chunks []
+      (by simpa using encodeRequest_nonempty max req bytes henc) (by simpa using hcat)]
+  simp [Srv.run, Srv.step, hresp]
+
 /-! non-vacuity -/
 example : ((Srv.run (effMax none) true (.reading [] false)
     [.data [0x61,0x6e,0x65,0x6d,0x6f,0,1,0, 0,0,0,0x11], .data [1,0,0,0,0,0,0,0,0x2f, 0,0,0,0,0,0,0,0, 0,0,0,0],
      .handlerDone ⟨.Success, [], [7], .V1, []⟩, .readAll]).2.filter isInvoke).length = 1 := by decide
 
+/-- two requests interleaved chunk by chunk on streams 4 and 8, handlers completing in the opposite order -/
+example :
+    let a : Bytes := [0x61,0x6e,0x65,0x6d,0x6f,0,1,0, 0,0,0,0x11]
+    let b : Bytes := [1,0,0,0,0,0,0,0,0x2f, 0,0,0,0,0,0,0,0, 0,0,0,0]
+    let tr := Conn.trace (effMax none) {} [(4, .data a), (8, .data a), (8, .data b), (4, .data b),
+       (8, .handlerDone ⟨.Success, [], [8], .V1, []⟩), (4, .handlerDone ⟨.Success, [], [4], .V1, []⟩), (4, .readAll), (8, .readAll)]
+    ((tr.filter (fun x => x.1 = 4)).map (·.2)).length = 4 ∧ ((tr.filter (fun x => x.1 = 8)).map (·.2)).length = 4 := by decide
 
 /-- **The serving and calling sequences are the ones the stream machine models**, read off the source on
 this run: `do_handle` = read the request; stamp it with the connection's PeerId, origin, remote address
